@@ -306,10 +306,20 @@ def r5_unsafe_inventory(cx):
         cx.ob("R5", "R5/private/%s" % n.split("::")[-1], "Public" not in s.get("vis", "") or "Restricted" in s.get("vis", ""), "(struct %s)" % n, "%s is not public (visibility %s): user code cannot hand out the raw buffer" % (n.split("::")[-1], s.get("vis")))
 
 
+def r6_witness(cx):
+    """type-level: the reader views are Send + Sync (+ 'static for ByteRegion); the raw buffer types are private"""
+    import witness
+    for name, ok, detail in witness.run(["c07_shared_views"], repo=cx.repo):
+        cx.ob("R6", "R6/%s" % name, ok, "/verif/witness/src/lib.rs", detail)
+
+
+r6_witness.only_configs = ("lib-all3",)
+
 RULES = [
     ("R1", r1_publish, 6),
     ("R2", r2_no_realloc, 3),
     ("R3", r3_readers_below_published, 7),
     ("R4", r4_lock_order, 5),
     ("R5", r5_unsafe_inventory, 4),
+    ("R6", r6_witness, 1),
 ]
